@@ -6,6 +6,7 @@ mod families;
 mod play;
 mod pure;
 mod textreplay;
+mod tt;
 
 fn main() {
     let argv: Vec<String> = std::env::args().collect();
@@ -19,6 +20,8 @@ fn main() {
         "families" => families::run(&args),
         "magic" => pure::magic(&args),
         "movevalue" => pure::movevalue(&args),
+        "tt-seq" => tt::seq(&args),
+        "tt-hammer" => tt::hammer(&args),
         "san" => textreplay::san(&args),
         "fen" => textreplay::fen(&args),
         "hashvar" => textreplay::hashvar(&args),
